@@ -104,3 +104,19 @@ Definition frame_span (b : list N) : option (list N) :=
    order of x modulo the generator, beyond which some double-bit errors are invisible *)
 Definition crc16_detectable (e : list N) : Prop :=
   single_bit_error e \/ double_bit_error 32767 e \/ burst_error 16 e \/ odd_weight_error e.
+
+(* what the correspondence check runs on every (corrupted) arrival: delimit the frame from the
+   header, then - if the CRC flag is set - check it. (Whether the data field then parses as a PDU
+   is the codec model's business; a frame that fails here is rejected whatever it contains.) *)
+Definition receiver_frame_check (b : list N) : bool :=
+  match frame_span b with
+  | Some f => if crc_flag_of_header b then crc_frame_ok f else true
+  | None => false
+  end.
+
+(* number of octets the receiver consumes, when enough arrived *)
+Definition receiver_consumed (b : list N) : option nat :=
+  match frame_span b with
+  | Some f => Some (length f)
+  | None => None
+  end.
